@@ -47,7 +47,10 @@ ASSUMPTIONS = ["trait_added listeners are modelled for one shape only: add_trait
                "left at None, compared by correspondence only); their access semantics is an opaque callback (C11); "
                "every theorem about policies / coherence carries NoDeleg (no delegate trait in the world)",
                "generated hierarchies: linear chains of 1-3 levels, plus a stream of two-base classes (independent "
-               "chains and diamonds with a valid C3 order)",
+               "chains and diamonds with a valid C3 order), plus a stream of two or three bases that define the same wildcard "
+               "prefix (or the '' class default, through HasStrictTraits / HasPrivateTraits bases) differently, in every "
+               "order; a deviation in such a class is the known finding F55 only if the observed outcome and governing "
+               "trait are exactly what the first-base-wins merge predicts",
                "add_class_trait after instances exist is outside the quantifier (DESIGN section 7)"]
 EXHAUSTIVE = {"quick": False, "thorough": True}
 
@@ -107,6 +110,8 @@ def generate(rng, tier):
         yield R.malformed_history(rng)
     for _ in range(nl):
         yield R.mi_history(rng)
+    for _ in range(nl):
+        yield R.mi_same_prefix_history(rng)
     for _ in range(nl):
         yield R.deleg_history(rng)
     for _ in range(2 * nl):
@@ -242,6 +247,7 @@ def run_impl(case):
         d = route = None
         if k in ("set", "del"):
             written.add((type(info["obj"]), name))
+        vals_before = dict(o.vals)
         if k in ("get", "set", "del"):
             exp, d, route = R.expect(o, k, name, words[3] if k == "set" else None)
             tags.add("route:" + route)
@@ -292,9 +298,19 @@ def run_impl(case):
             if mismatch is None and g not in ("-", str(d.tag)):
                 mismatch = "_trait(%r, 0) after _trait(.., %d): #%s, expected #%d" % (name, mode, g, d.tag)
         if mismatch is not None:
+            multi = any(len(c.bases) > 1 for c in o.cls.mro())
+            flat_ok = False
+            if multi:
+                # is this the behaviour F55 describes (first base's flattened tables win)?  Only then is it known
+                if k in ("get", "set", "del"):
+                    fexp, fd = R.expect_flat(o, vals_before, k, name, words[3] if k == "set" else None)
+                    flat_ok = real == fexp and g in ("-", str(fd.tag))
+                else:
+                    fd = R.governing_flat(o, name)[0]
+                    flat_ok = g in ("-", str(fd.tag))
             sig = classify(k, name, info, real, g, d, route, late.get(type(info["obj"]), ()), over_value,
                            (type(info["obj"]), name) in written,
-                           any(len(c.bases) > 1 for c in o.cls.mro()), stem in delegs and stem != name)
+                           multi, stem in delegs and stem != name, flat_ok)
             tags.add("hit:" + sig.split(":")[0])
             hits.append(_hit(sig, mismatch, op=op))
             # one defect, one hit: continue from the value the object really holds
@@ -347,7 +363,8 @@ def extra_checks(ctx):
     return hits
 
 
-def classify(k, name, info, real, g, d, route, late_names, over_value, was_written, multi, foreign_shadow):
+def classify(k, name, info, real, g, d, route, late_names, over_value, was_written, multi, foreign_shadow,
+             flat_ok=False):
     """Name the input class / call site of a deviation (known findings are matched on it)."""
     reading = k in ("get", "trt")
     if R.is_dunder(name) and route != "instance":
@@ -366,7 +383,10 @@ def classify(k, name, info, real, g, d, route, late_names, over_value, was_writt
         # `w_` resolved as the shadow of a delegate `w` that this object does not have (any more)
         return "delegate-shadow:class-cache-outlives-instance-delegate"
     if multi and route != "instance":
-        return "multiple-inheritance:merged-base-tables-not-mro"
+        if flat_ok:
+            return "multiple-inheritance:merged-base-tables-not-mro"
+        # neither Python's MRO nor the first-base-wins merge of F55
+        return "multiple-inheritance:neither-mro-nor-first-base-tables:%s" % ("read" if reading else "write")
     if k == "get" and info["pre"] is not R.MISSING and real == "val " + R.show_val(info["pre"]) \
             and (id(info["obj"]), name) in over_value and d.kind in ("event", "disallow", "constant"):
         return "stale-dict-value-read-after-add_trait"
